@@ -68,17 +68,17 @@ class RpmVersion(NamedTuple):
 def get_segments(s):
     """
     Return a tuple of the significant segments of a version or release string
-    ``s`` as compared by rpm: digits runs as integers, letters runs, "~" and "^".
-    Any other character is only a separator.
+    ``s`` as compared by rpm: digits runs without their leading zeros, letters
+    runs, "~" and "^". Any other character is only a separator.
 
     For example::
     >>> get_segments("1.05~rc1")
-    (1, 5, '~', 'rc', 1)
+    ('1', '5', '~', 'rc', '1')
     >>> get_segments("1_5~rc.1") == get_segments("1.05~rc1")
     True
     """
     segments = re.findall(r"[0-9]+|[a-zA-Z]+|~|\^", s)
-    return tuple(int(seg) if seg.isdigit() else seg for seg in segments)
+    return tuple(seg.lstrip("0") if seg.isdigit() else seg for seg in segments)
 
 
 def from_evr(s):
